@@ -41,11 +41,30 @@ class ConcreteCtx:
         return self.conv.get(name, False)
 
 
+def run_scenario(sc):
+    """the real engine on the scenario's sample-size / convergence answers and concrete payoffs; returns (stats, registry, criteria)"""
+    ctxc = ConcreteCtx({k: int(v) for k, v in sc["ns"].items()}, {k: bool(v) for k, v in sc["conv"].items()})
+    reg = Registry(ctxc)
+    crit = ScriptedCriteria(ctxc, sc["bound"], offset=sc.get("offset", 0))
+    crit.max_calls = MAX_PASSES + 2
+    cc = CR.ConvergenceCriteria(criteria=crit.criteria, compute_mc_paths=_limited(crit))
+    cfg = CFG.ConfigurationMultiLevel(convergence_rates=CFG.ConvergenceRates(alpha=1.0, beta=1.0, gamma=1.0), convergence_criteria=cc,
+                                      initial_level=sc["initial_level"], maximum_level=sc["level_max"], initial_mc_paths=sc["n0"], nb_of_processes=1)
+    cfg.initialisation_seed = lambda multiprocessing=False: None
+    eng = ME.Engine(cfg, ScriptedCoupling(reg, 0.9))
+    prod = ScriptedProduct(2.0)
+    if sc.get("fixed"):
+        stats = eng.price_with_constant_mc_paths_and_level(prod)
+    else:
+        stats = eng.price(prod, 0.1)
+    return stats, reg, crit
+
+
 def replay_run(sc):
     """run the real engine with the scenario's sample-size / convergence answers and concrete payoffs; compare with the definition"""
     ctxc = ConcreteCtx({k: int(v) for k, v in sc["ns"].items()}, {k: bool(v) for k, v in sc["conv"].items()})
     reg = Registry(ctxc)
-    crit = ScriptedCriteria(ctxc, sc["bound"])
+    crit = ScriptedCriteria(ctxc, sc["bound"], offset=sc.get("offset", 0))
     crit.max_calls = MAX_PASSES + 2
     cc = CR.ConvergenceCriteria(criteria=crit.criteria, compute_mc_paths=_limited(crit))
     cfg = CFG.ConfigurationMultiLevel(convergence_rates=CFG.ConvergenceRates(alpha=1.0, beta=1.0, gamma=1.0), convergence_criteria=cc,
@@ -86,11 +105,11 @@ def _limited(crit):
     return f
 
 
-def _scenario(ctx, crit, il, n0, lm, bound, fixed=False):
+def _scenario(ctx, crit, il, n0, lm, bound, fixed=False, offset=0):
     def b(m):
         ns = {k: m[k] for k in ctx.symbols if k.startswith("Ns[")}
         conv = {k: m.b(k) for k in ctx.symbols if k.startswith("converged[")}
-        return {"initial_level": il, "n0": n0, "level_max": lm, "bound": bound, "ns": ns, "conv": conv, "fixed": fixed}
+        return {"initial_level": il, "n0": n0, "level_max": lm, "bound": bound, "ns": ns, "conv": conv, "fixed": fixed, "offset": offset}
 
     return b
 
@@ -172,6 +191,33 @@ def h_fixed(ctx, il, n0, lm):
     _check_results(ctx, stats, reg, df, notional, rp, {"il": il, "n0": n0, "lm": lm, "fixed": True}, False)
 
 
+def h_adaptive_large(ctx, il, n0, bound):
+    """level sizes around 100 (the 1% rule of the loop only lets a level be 'nearly complete' from 100 samples on): the run may return
+    while the last allocation asks for up to 1% more samples than were simulated; price, N_l and the level means must still be taken over
+    the samples that were simulated.  One level (maximum_level = initial_level), answers n0 + [0, bound]."""
+    lm = il
+    eng, prod, reg, crit, df, notional = make_engine(ctx, il, n0, lm, bound, offset=n0)
+    eng.configuration.convergence_criteria.compute_mc_paths = _limited(crit)
+    rmse = ctx.real("rmse")
+    ctx.assume(rmse > 0)
+    try:
+        stats = eng.price(prod, rmse)
+    except ZeroDivisionError:
+        raise PathAbort()
+    rp = (replay_run, _scenario(ctx, crit, il, n0, lm, bound, offset=n0))
+    info = {"il": il, "n0": n0, "lm": lm, "passes": len(crit.ns_calls), "answers": [list(map(int, a)) for _, a in crit.ns_calls]}
+    res = stats.mlmc_results
+    total = 0
+    for l in range(len(stats.mc_statistics)):
+        S, ys, fs = _level_terms(reg, l, df, notional)
+        if S:
+            total = total + sum(ys) / len(S)
+        ctx.prove("C05.reported_Nl_is_number_of_simulated_samples", EQ(res.Nl[l], len(S)), info=dict(info, level=l), replay=rp)
+        if S:
+            ctx.prove("C05.mean_level_l", EQ(res.mean_level_l[l], sum(fs) / len(S)), info=dict(info, level=l), replay=rp)
+    ctx.prove("C05.price_is_sum_of_level_means_over_simulated_samples", EQ(stats.price(), total), info=info, replay=rp)
+
+
 class VectorProduct(ScriptedProduct):
     """payoff with two components (vector of strikes)"""
 
@@ -225,8 +271,10 @@ def harnesses(tier):
         [(0, 1, 1, 3), (1, 1, 2, 3), (0, 2, 1, 3), (1, 2, 2, 3), (2, 1, 3, 2), (2, 2, 2, 3), (0, 1, 2, 3), (1, 3, 2, 3)]
     for il, n0, lm, b in cfgs:
         hs.append(Harness(f"adaptive.L{il}.N{n0}.M{lm}.B{b}", h_adaptive, {"il": il, "n0": n0, "lm": lm, "bound": b}, max_paths=30000 if not q else 6000, batch=10))
-    for il, n0, lm in ([(0, 2, 1), (1, 1, 2), (2, 2, 1)] if q else [(0, 2, 1), (1, 1, 2), (2, 2, 1), (0, 3, 3), (2, 1, 0), (3, 2, 2)]):
+    for il, n0, lm in ([(0, 2, 1), (1, 1, 2), (2, 2, 1), (0, 1, 2), (1, 2, 4)] if q else [(0, 2, 1), (1, 1, 2), (2, 2, 1), (0, 1, 2), (1, 2, 4), (0, 3, 3), (2, 1, 0), (3, 2, 2), (0, 2, 5)]):
         hs.append(Harness(f"fixed.L{il}.N{n0}.M{lm}", h_fixed, {"il": il, "n0": n0, "lm": lm}, max_paths=2000))
+    for il, n0, b in ([(0, 100, 1)] if q else [(0, 100, 2), (1, 100, 2), (0, 200, 3)]):
+        hs.append(Harness(f"adaptive.large.L{il}.N{n0}.B{b}", h_adaptive_large, {"il": il, "n0": n0, "bound": b}, max_paths=6000, batch=4))
     hs.append(Harness("vector_payoff", h_vector_payoff, max_paths=200))
     hs.append(Harness("twin", h_twin, twin="must_fail"))
     return hs
@@ -237,7 +285,8 @@ EXPECT = ["C05.price_is_sum_of_level_means_over_simulated_samples", "C05.reporte
 
 
 def main(tier):
-    bounds = {"quick": f"initial_level in {{0,1}}, N0 in {{1,2}}, level_max <= initial+1, sample-size answers in [0,2], <= {MAX_PASSES} passes; fixed-level variant",
+    bounds = {"quick": f"initial_level in {{0,1}}, N0 in {{1,2}}, level_max <= initial+1, sample-size answers in [0,2], <= {MAX_PASSES} passes; fixed-level variant with up to 3 "
+                       "levels created at once; one level of 100 samples with answers 100..101 (1% rule)",
               "thorough": f"initial_level <= 2, N0 <= 3, level_max <= initial+1 or 2, answers in [0,3], <= {MAX_PASSES} passes; fixed-level variant with maximum_level below/above initial_level",
               "outside": "control variates and payoff dimension > 1 in the multilevel engine; worker pools (C08); regression of the convergence rates (lstsq in C)"}
     return run_check(PID, tier, harnesses(tier), expect=EXPECT, bounds=bounds,
